@@ -36,6 +36,8 @@ REG = {
          "'every later query result is identical' holds by construction in the model (queries are functions of the block bytes) and is established for the implementation by the bit-for-bit battery comparison, not by a theorem. Known finding zero-time-cycle (seek hangs) is shared with C03."),
  "C03": ("PARTIAL by nature (runtime memory safety cannot be a theorem about a model). Lean 4 theorems for ALL byte strings of any length and all query sequences: every read of the model goes through the checked accessor and the model never faults - container open/lookup (both backends), variable-length integers, trajectory load and every finite history of position/velocity/acceleration/duration queries (trajectory_queries_total: segment building is total and the seek loop ends within length+3 iterations), RTH load/points/evaluation at any time incl. NaN, yaw load and setpoint building (int32 accumulation needs > 65535 setpoints), light executor steps are total functions and a seek can only fail by exhausting fuel. Runtime: the same hostile inputs are run through the real library under ASan+UBSan(+float-cast-overflow) with a 5 s watchdog and every result is compared with the model.",
          "The sanitizers are the monitor for the compiled code; classes they cannot see (uninitialised reads other than those repaired, intra-object overflow) are covered only where the model represents them (loop stack). One recorded known finding: seek on a light program with a zero-time cycle never returns."),
+ "C16": ("Bit-exact model of builder.c (every float operation there is a correctly rounded IEEE operation, modelled with roundF32) compared with the implementation byte for byte after every call: all call sequences up to length 3/4 over a boundary alphabet for scales {1,2,127} plus random sequences of 200 calls; a rejected call must leave the buffer unchanged; the finished trajectory's bytes and total duration are compared too. Lean 4 theorems: splitting of long segments and chunking of holds preserve the requested duration exactly and never exceed 60000 ms (<= 65535 side-condition on the generated constant), a long append_line is exactly a sequence of ordinary segments with those durations ending at the target, invalid scales and late set-start are rejected, an unrepresentable target is rejected before anything is appended.",
+         "PARTIAL: 'within one quantum of each accepted point' is not a Lean theorem; it is implied for the implementation by the byte-exact agreement with the model's floor(x/scale) quantisation, whose one-quantum property is plain arithmetic but not yet stated in Lean. That validation of the target implies success of every split piece (midpoints lie between representable points) relies on monotonicity of float rounding (not proven)."),
 }
 
 checks = []
